@@ -262,7 +262,14 @@ fn derive_dest(r: &mut SplitMix, snap: &[Entry], w: &World, destkind: u64) -> (V
                         83..=87 => out.push(lit(e.path.clone(), b, e.mode ^ 0o111, e.mtime)),
                         88..=93 => {
                             // same size, every byte non-zero, other mtime (zero blobs of the snapshot meet old data)
-                            out.push(lit(e.path.clone(), vec![0xAA; b.len()], e.mode, other_m));
+                            // ... of the same size, or longer / shorter (then no blob can match and the whole file
+                            // is rewritten over the old bytes)
+                            let n = match r.below(3) {
+                                0 => b.len(),
+                                1 => b.len() + 1 + r.below(3000) as usize,
+                                _ => b.len() - b.len().min(1 + r.below(600) as usize),
+                            };
+                            out.push(lit(e.path.clone(), vec![0xAA; n], e.mode, other_m));
                         }
                         _ => out.push(lit(e.path.clone(), b, e.mode, other_m)),
                     }
